@@ -3827,7 +3827,9 @@ static Value eval_expression(ASTNode *expr, Environment *env) {
             
             /* Set elements */
             for (int i = 0; i < count; i++) {
-                Value elem = eval_expression(expr->as.array_literal.elements[i], env);
+                /* element 0 was evaluated above to learn the element type: evaluating it again
+                 * would repeat its side effects */
+                Value elem = (i == 0) ? first : eval_expression(expr->as.array_literal.elements[i], env);
                 
                 /* Store element in array data */
                 switch (elem_type) {
